@@ -1,0 +1,31 @@
+//go:build verif
+
+package util
+
+import (
+	"os"
+	"strconv"
+	"strings"
+	"syscall"
+)
+
+var verifKillCount = map[string]int{}
+
+// verifKillPoint kills the process at an exact step of WriteFileAt: VERIF_KILL_AT=<step>:<n> dies with SIGKILL when the
+// given step ("open", "write", "close", "rename") has been reached for the n-th time (verification harness only)
+func verifKillPoint(step string) {
+	spec := os.Getenv("VERIF_KILL_AT")
+	if spec == "" {
+		return
+	}
+	parts := strings.SplitN(spec, ":", 2)
+	if len(parts) != 2 || parts[0] != step {
+		return
+	}
+	n, _ := strconv.Atoi(parts[1])
+	verifKillCount[step]++
+	if verifKillCount[step] == n {
+		_ = syscall.Kill(os.Getpid(), syscall.SIGKILL)
+		select {}
+	}
+}
